@@ -194,7 +194,29 @@ class Interp:
     def run(self, fi: FunctionInfo, args: Dict[str, Term], st: Optional[State] = None) -> List[Outcome]:
         st = st or State()
         ctx = Ctx(fi, fi.module, 0)
-        return self._invoke(fi, args, st, ctx)
+        outs = self._invoke(fi, args, st, ctx)
+        self._note_opaque(fi, outs)
+        return outs
+
+    def _note_opaque(self, fi: Any, outs: List[Outcome]) -> None:
+        """Record opaque values that survive into the outcomes (see terms.OPAQUE_SEEN)."""
+        acc: set = set()
+        seen: set = set()
+        for o in outs:
+            T.opaque_markers(tuple(o.state.pc), acc, seen)
+            T.opaque_markers(o.value, acc, seen)
+            for e in o.state.events:
+                T.opaque_markers(e.args, acc, seen)
+                T.opaque_markers(tuple(v for _, v in e.kwargs), acc, seen)
+                if "opq:" in e.target or "TOP[" in e.target:
+                    acc.add("RECV:" + e.target.split("#")[0][:60])
+            for ho in o.state.heap.values():
+                T.opaque_markers(tuple(ho.fields.values()), acc, seen)
+                for it in ho.items:
+                    T.opaque_markers(it, acc, seen)
+        for m in acc:
+            n, _ = T.OPAQUE_SEEN.get(m, (0, ""))
+            T.OPAQUE_SEEN[m] = (n + 1, fi if isinstance(fi, str) else fi.qualname)
 
     def _invoke(self, fi: FunctionInfo, bound: Dict[str, Term], st: State, ctx: Ctx) -> List[Outcome]:
         if ctx.depth > self.max_depth:
@@ -911,6 +933,12 @@ class Interp:
         raise AnalysisError(f"not a user callable at {where}")
 
     def construct(self, ci: ClassInfo, args: List[Term], kwargs: Dict[str, Term], st: State, ctx: Ctx, node: ast.AST) -> List[Outcome]:
+        outs = self._construct(ci, args, kwargs, st, ctx, node)
+        if ctx.fi is None and ctx.depth == 0:
+            self._note_opaque(f"{ci.name}.__init__", outs)   # used as an analysis entry point by a checker
+        return outs
+
+    def _construct(self, ci: ClassInfo, args: List[Term], kwargs: Dict[str, Term], st: State, ctx: Ctx, node: ast.AST) -> List[Outcome]:
         where = ctx.loc(node)
         self.calls_resolved.append((where, ci.key))
         obj = st.alloc(HeapObj("obj", ci, {}, [], False, "", True))
@@ -1339,9 +1367,13 @@ class Interp:
             return self.external_call(T.show(fv) if t == "sym" else f"{fv[2]}", args, kwargs, st, ctx, node, awaited)
         raise AnalysisError(f"call of non-callable {T.show(fv)} at {ctx.loc(node)}")
 
-    def external_call(self, target: str, args: List[Term], kwargs: Dict[str, Term], st: State, ctx: Ctx, node: ast.AST, awaited: bool, result: Optional[Term] = None) -> Term:
+    def external_call(self, target: str, args: List[Term], kwargs: Dict[str, Term], st: State, ctx: Ctx, node: ast.AST, awaited: bool, result: Optional[Term] = None, opaque: bool = False) -> Term:
+        """An observable call the repository does not define.  The result of a call on an environment object
+        (stream, transport, loop, user callback) is a fresh unknown - an exact model of the environment.  With
+        opaque=True the callee is a library function / value method the analyser has no model for: its result is
+        named `opq:` and counts as imprecision of the analysis (terms.OPAQUE_SEEN)."""
         if result is None:
-            result = ("sym", st.fresh(f"ret:{target}"), "any")
+            result = ("sym", st.fresh(f"{'opq' if opaque else 'ret'}:{target}"), "any")
         st.events.append(
             Event("call", target, tuple(args), tuple(sorted(kwargs.items())), ctx.loc(node), ctx.fi.key if ctx.fi else "", awaited, result, len(st.pc))
         )
@@ -1453,7 +1485,7 @@ class Interp:
             r = self.lib.membership(self, a2, b2, st, ctx, node)
             if r is not None:
                 return r if name == "in" else neg(r)
-        return ("cmp", name, a2, b2)
+        return mkcmp(name, a2, b2)
 
     def canon_cmp_operand(self, v: Term, st: State) -> Term:
         s = T.to_seq(v) if (is_c(v) and isinstance(v[1], (str, bytes))) else None
@@ -1859,6 +1891,29 @@ def ite(cond: Term, a: Term, b: Term) -> Term:
         if b == neg(cond) or (is_c(b) and b[1] is True):
             return disj([neg(cond), a])
     return ("ite", cond, a, b)
+
+
+_FLIP = {"==": "==", "!=": "!=", "<": ">", "<=": ">=", ">": "<", ">=": "<="}
+
+
+def _cmp_rank(v: Term) -> int:
+    """Constants go to the right-hand side of a comparison."""
+    if is_c(v) or (isinstance(v, tuple) and v and v[0] == "enum"):
+        return 1
+    if T.is_seq(v) and all(a[0] == "L" for a in v[2]):
+        return 1
+    return 0
+
+
+def mkcmp(op: str, a: Term, b: Term) -> Term:
+    """Canonical comparison atom: `a OP b` and `b OP' a` are one term.  A constant operand is on the right;
+    two non-constant (or two constant) operands are ordered by their printed form."""
+    if op in _FLIP:
+        ra, rb = _cmp_rank(a), _cmp_rank(b)
+        swap = ra > rb or (ra == rb and T.show(a) > T.show(b))
+        if swap:
+            return ("cmp", _FLIP[op], b, a)
+    return ("cmp", op, a, b)
 
 
 def fold_cmp(op: str, a: Term, b: Term) -> Optional[bool]:
